@@ -168,6 +168,14 @@ def gen_history(rng, cfg, length):
             continue
         ch = pick(rng, declared)
         r = rng.random()
+        if rng.random() < 0.03:
+            # calls that must be refused and leave no trace: a variable of another sequence; an own variable used on an undeclared channel
+            if rng.random() < 0.5:
+                ops.append(("badvar_foreign", ch))
+            else:
+                ops.append(("declare_var", f"v{step}"))
+                ops.append(("delay_var", f"v{step}", "no_such_channel"))
+            continue
         if ch.startswith("dmm_"):
             if r < 0.7:
                 ops.append(("add_dmm", ("detconst", pick(rng, [16, 100, 200, 52]), pick(rng, [-1.0, -10.0, -30.0, 0.0, 5.0])), ch, pick(rng, ["no-delay", "min-delay"])))
@@ -200,6 +208,44 @@ def gen_history(rng, cfg, length):
         else:
             ops.append(("readonly", pick(rng, ["str", "duration", "sample", "serialize", "phase_ref"]), ch))
     return ops
+
+
+def gen_drift_case(rng):
+    """one EOM channel, every EOM control / EOM pulse with correct_phase_drift=True, no other phase shifts (oracle: checks.final_C15)"""
+    bw = pick(rng, [4.0, 8.0, 2.0])
+    local = rng.random() < 0.3
+    c = dict(kind="rydberg", local=local, clock_period=pick(rng, [4, 4, 8, 1]), min_duration=pick(rng, [16, 16, 4, 20]), max_duration=None, mod_bandwidth=bw,
+             max_amp=60.0, max_abs_detuning=125.0, min_avg_amp=0, custom_phase_jump_time=None,
+             eom=dict(mod_bandwidth=pick(rng, [30.0, 2 * bw, bw]), custom_buffer_time=pick(rng, [None, None, 240, 100]), multiple_beam_control=pick(rng, [True, False]), beams=pick(rng, [1, 2])))
+    if local:
+        c.update(min_retarget_interval=pick(rng, [0, 220]), fixed_retarget_t=0, max_targets=1)
+    cfg = dict(channels={"ch": c}, max_sequence_duration=None, n_atoms=2, dmm=None, reusable=False, all_drift=True)
+    ops = [("declare", "ch", "ch", "q0" if local else None)]
+    in_eom = False
+    gaps = [4, 8, 16, 100, 104, 108, 112, 116, 120, 200, 228, 232, 236, 240, 37]
+    for _ in range(pick(rng, [4, 7, 10])):
+        r = rng.random()
+        if not in_eom:
+            if r < 0.35:
+                ops.append(("add", ("const", pick(rng, [52, 100, 200]), pick(rng, [1.0, 5.0]), pick(rng, [0.0, -5.0]), 0, 0), "ch", "min-delay"))
+            elif r < 0.6:
+                ops.append(("delay", pick(rng, gaps), "ch", False))
+            else:
+                ops.append(("enable_eom", "ch", pick(rng, [1.0, 5.0, 10.0]), pick(rng, [0.0, -5.0, 10.0]), pick(rng, [0.0, -20.0, 30.0]), True))
+                in_eom = True
+        else:
+            if r < 0.35:
+                ops.append(("eom_pulse", "ch", pick(rng, [16, 52, 100, 101]), 0, pick(rng, ["min-delay", "no-delay"]), True))
+            elif r < 0.55:
+                ops.append(("delay", pick(rng, gaps), "ch", False))
+            elif r < 0.75:
+                ops.append(("modify_eom", "ch", pick(rng, [2.0, 8.0, 5.0]), pick(rng, [0.0, 4.0]), pick(rng, [0.0, 15.0, -20.0]), True))
+            else:
+                ops.append(("disable_eom", "ch", True))
+                in_eom = False
+    if in_eom:
+        ops.append(("disable_eom", "ch", True))
+    return cfg, ops
 
 
 def scripted_histories(rng):
@@ -277,6 +323,13 @@ def apply_op(seq, op, ctx):
         seq.disable_eom_mode(op[1], correct_phase_drift=op[2])
     elif k == "modify_eom":
         seq.modify_eom_setpoint(op[1], op[2], op[3], optimal_detuning_off=op[4], correct_phase_drift=op[5])
+    elif k == "badvar_foreign":
+        other = Sequence(ctx["reg"], ctx["dev"])
+        seq.delay(other.declare_variable("fv", dtype=int), op[1])
+    elif k == "declare_var":
+        ctx.setdefault("vars", {})[op[1]] = seq.declare_variable(op[1], dtype=int)
+    elif k == "delay_var":
+        seq.delay(ctx["vars"][op[1]], op[2])
     elif k == "measure":
         seq.measure(op[1])
     elif k == "estimate":
@@ -458,6 +511,8 @@ def main(argv):
         hint = pick(rng, hints) if hints and rng.random() < 0.5 else None
         if scripted:
             cfg, ops = scripted.pop(0)
+        elif prop == "C15" and rng.random() < 0.35:
+            cfg, ops = gen_drift_case(rng)
         else:
             cfg = gen_config(rng, hint)
             ops = gen_history(rng, cfg, pick(rng, [4, 8, 12, 20]))
